@@ -118,3 +118,6 @@ UNITS.append(dataclass_unit("C10"))
 # a declared default is stored in its config form once (what the first parse returns is then already normal for lazy instances, dataclass instances, specs, Enum members)
 from contracts.any_units import normalize_default_unit  # noqa: E402
 UNITS.append(normalize_default_unit("C10"))
+
+from contracts.share import carried as _carried  # noqa: E402
+UNITS += _carried("C10")
